@@ -307,6 +307,22 @@ func c13ScriptCase(c *core.Ctx, weights map[string]int) *core.Result {
 					fmt.Sprintf("style %q was created through the style API but is absent from the saved styles part", st.StyleID), "ops: "+strings.Join(tail(s.Log, 25), " "))
 			}
 		}
+		ids := make([]string, 0, len(s.StyleMarks))
+		for id := range s.StyleMarks {
+			ids = append(ids, id)
+		}
+		sort.Strings(ids)
+		for _, id := range ids {
+			res.Count("api_style_changes_checked", 1)
+			if got, ok := p.StyleRunColor(id); !ok || got != s.StyleMarks[id] {
+				cls := "predefined"
+				if strings.HasPrefix(id, "Cust") {
+					cls = "custom"
+				}
+				res.Add("api-style-change-missing-from-save/"+cls+"/reopens="+fmt.Sprint(min2(s.Reopens, 1))+"/renders="+fmt.Sprint(min2(s.Renders, 1))+"/saves>1="+fmt.Sprint(s.Kinds["__saves"] > 1),
+					fmt.Sprintf("style %q was given run colour %s through the registered style object, the saved styles part shows %q (defined=%v)", id, s.StyleMarks[id], got, ok), "ops: "+strings.Join(tail(s.Log, 25), " "))
+			}
+		}
 	})
 	res.Nontrivial = res.Nontrivial && res.Stats["ids_resolved"] > 0
 	return res
